@@ -33,7 +33,7 @@ def _diff_shifted(arr, steps=1):
 
 def _create_correlograms_array(n_clusters, winsize_bins):
     return np.zeros((n_clusters, n_clusters, winsize_bins // 2 + 1),
-                    dtype=np.int32)
+                    dtype=np.int64)
 
 
 def _symmetrize_correlograms(correlograms):
